@@ -222,7 +222,7 @@ Proof. intros Fn. split; [apply ext_app|]. intros F. apply Forall_app; auto. Qed
 (* every public call keeps every object, and keeps PI *)
 Lemma mcall_good K m c : good (objs m) (objs (fst (fst (mcall K m c)))).
 Proof.
-  destruct c as [pid|pid|o|o s|o|o|o|o|o|a b|a b|o s|o|o| | |o vis| |g|o vis]; cbn [mcall].
+  destruct c as [pid|pid|o|o s|o|o|o|o|o|a b|a b|o s|o|o| | |o vis| |g|o vis|o hw ok|o ok]; cbn [mcall].
   - destruct (new_obj K pid) eqn:N; cbn [fst with_objs objs]; try apply good_refl.
     apply good_app. constructor; [eapply new_obj_PI; eauto|constructor].
   - destruct (new_popen K pid) eqn:N; cbn [fst with_objs objs]; try apply good_refl.
@@ -235,11 +235,13 @@ Proof.
     eapply good_upd; eauto.
   - destruct (nth_error (objs m) o); cbn [fst]; apply good_refl.
   - destruct (nth_error (objs m) o) as [x|] eqn:Ex; cbn [fst with_objs objs]; try apply good_refl.
+    destruct (oshared x); cbn [fst with_objs objs]; try apply good_refl.
     eapply good_upd; eauto. apply oneshot_enter_keep.
   - destruct (nth_error (objs m) o) as [x|] eqn:Ex; cbn [fst]; try apply good_refl.
     destruct (oneshot_exit x) as [x1|] eqn:Eo; cbn [fst with_objs objs]; try apply good_refl.
     eapply good_upd; eauto. eapply oneshot_exit_keep; eauto.
   - destruct (nth_error (objs m) o) as [x|] eqn:Ex; cbn [fst]; try apply good_refl.
+    destruct (oshared x); cbn [fst]; try apply good_refl.
     pose proof (do_ppid_keep K (oneshot_enter x)) as Kp.
     destruct (do_ppid K (oneshot_enter x)) as [[x1 r] add]. cbn [fst] in Kp.
     destruct (oneshot_exit x1) as [x2|] eqn:Eo; cbn [fst with_reusedset with_objs objs]; try apply good_refl.
@@ -294,7 +296,18 @@ Proof.
     pose proof (do_wait_procs_keep K x vis) as Kp.
     destruct (do_wait_procs K x vis) as [[x1 r] add]. cbn [fst with_reusedset with_objs objs] in *.
     eapply good_upd; eauto.
+  - destruct (nth_error (objs m) o) as [x|] eqn:Ex; cbn [fst]; try apply good_refl.
+    destruct ok; [|destruct hw; cbn [fst]; apply good_refl]. destruct (oshot x); cbn [fst with_objs objs]; try apply good_refl.
+    assert (Ks : keep x (with_shared x)) by (apply keep_same; reflexivity).
+    eapply good_trans; [eapply good_upd; eauto|]. split; [apply ext_app|].
+    intros F. apply Forall_app. split; auto. constructor; [|constructor].
+    rewrite Forall_forall in F. destruct Ks as (_ & _ & _ & _ & Kpi).
+    assert (Px : PI (with_shared x)) by (apply F; eapply nth_error_In; eapply nth_error_upd_same; eauto).
+    exact Px.
+  - destruct (nth_error (objs m) o); cbn [fst]; apply good_refl.
 Qed.
+
+
 
 (* ---------------------------------------------------------------- histories *)
 Lemma cstep_good w c : good (objs (ms w)) (objs (ms (fst (fst (cstep w c))))).
@@ -429,3 +442,18 @@ Lemma ex_blind_ok :
   /\ outcome_of (run ex_blind) (EC (IsRunning 0)) = Val (RBool false)
   /\ obj_ident (run (ex_blind ++ [EC (IsRunning 0); EC (HashEq 0 1)])) 0 = Some (5, None).
 Proof. vm_compute. repeat split. Qed.
+
+(* a copy carries the identity of its original -- and by identity_never_changes keeps it for ever *)
+Theorem copy_has_identity_of_original w o hw n :
+  outcome_of w (EC (Copy o hw true)) = Val (RObj n) ->
+  obj_ident (next w (EC (Copy o hw true))) n = obj_ident w o /\ obj_ident w o <> None
+  /\ obj_ident (next w (EC (Copy o hw true))) o = obj_ident w o.
+Proof.
+  unfold outcome_of, next, obj_ident. cbn [step]. rewrite cstep_eq. cbn [fst snd mcall ms].
+  destruct (nth_error (objs (ms w)) o) as [x|] eqn:Ex; [|discriminate].
+  destruct (oshot x); [|discriminate]. cbn [fst snd with_objs objs]. intros E. inversion E; subst n.
+  assert (L : length (upd_nth o (with_shared x) (objs (ms w))) = length (objs (ms w))) by apply upd_nth_length.
+  rewrite nth_error_app2 by lia. rewrite L, Nat.sub_diag. cbn [nth_error].
+  rewrite nth_error_app1 by (rewrite L; apply nth_error_Some; congruence).
+  rewrite (nth_error_upd_same _ _ _ _ Ex). splits; auto. discriminate.
+Qed.
